@@ -21,6 +21,7 @@ import Zed.Generated.C10
 import Zed.Proofs.ParSlicer
 import Zed.Proofs.ParScatter
 import Zed.Proofs.ParSortLift
+import Zed.Proofs.ParLifts
 import Zed.Proofs.AggMonoid
 import Zed.Proofs.AggGroupby
 namespace Zed.Props.C08
@@ -166,6 +167,67 @@ theorem not_sort_lift_sorted_foreign_order :
     ∃ (legs : List (List Int)) (out : List Int),
       KMerge (fun a b => decide (a ≤ b)) legs out ∧ ¬ out.Pairwise (fun x y => decide (x ≤ y) = true) :=
   ParSortLift.not_kmerge_sorted_foreign_order
+
+/-! ### head / tail / filter copied into the legs (liftIntoParPaths), with the final re-application
+
+  Results are fixed only up to the order of ties, so soundness is stated as: the parallel plan's
+  result is a sorted "n smallest" (head) / "n largest" (tail) selection of ALL rows — exactly what
+  the sequential plan's result is (`head_seq`, `tail_seq`) — resp. a sorted permutation of the
+  filtered rows. -/
+
+open ParLifts in
+/-- sequential plan: `head n` of the merged legs -/
+theorem head_seq (le : ρ → ρ → Bool) (hle : TotalPreorder le) (n : Nat) {legs : List (List ρ)} {out : List ρ}
+    (hs : ∀ l ∈ legs, l.Pairwise (fun x y => le x y = true)) (h : KMerge le legs out) :
+    SmallestSel le (out.take n) (out.drop n) legs.flatten ∧ (out.take n).length = min n legs.flatten.length :=
+  ParLifts.head_seq le hle n hs h
+
+open ParLifts in
+/-- **head_lift_sound**: `head n` in every leg, merge, `head n` again — a smallest-n selection
+    of all rows, of the same length as the sequential result. -/
+theorem head_lift_sound (le : ρ → ρ → Bool) (hle : TotalPreorder le) (n : Nat) {legs : List (List ρ)} {out' : List ρ}
+    (hs : ∀ l ∈ legs, l.Pairwise (fun x y => le x y = true))
+    (h : KMerge le (legs.map (List.take n)) out') :
+    SmallestSel le (out'.take n) (out'.drop n ++ (legs.map (List.drop n)).flatten) legs.flatten ∧
+    (out'.take n).length = min n legs.flatten.length :=
+  ParLifts.head_lift_sound le hle n hs h
+
+/-- the final re-application is needed: without it up to k·n rows come out -/
+theorem not_head_lift_without_reapply :
+    ∃ (legs : List (List Int)) (out' : List Int) (n : Nat),
+      KMerge (fun a b => decide (a ≤ b)) (legs.map (List.take n)) out' ∧ out'.length > n :=
+  ParLifts.not_head_lift_without_reapply
+
+open ParLifts in
+theorem tail_seq (le : ρ → ρ → Bool) (hle : TotalPreorder le) (n : Nat) {legs : List (List ρ)} {out : List ρ}
+    (hs : ∀ l ∈ legs, l.Pairwise (fun x y => le x y = true)) (h : KMerge le legs out) :
+    LargestSel le (lastN n out) (dropLastN n out) legs.flatten ∧ (lastN n out).length = min n legs.flatten.length :=
+  ParLifts.tail_seq le hle n hs h
+
+open ParLifts in
+/-- **tail_lift_sound**: `tail n` in every leg, merge, `tail n` again. -/
+theorem tail_lift_sound (le : ρ → ρ → Bool) (hle : TotalPreorder le) (n : Nat) {legs : List (List ρ)} {out' : List ρ}
+    (hs : ∀ l ∈ legs, l.Pairwise (fun x y => le x y = true))
+    (h : KMerge le (legs.map (lastN n)) out') :
+    LargestSel le (lastN n out') (dropLastN n out' ++ (legs.map (dropLastN n)).flatten) legs.flatten ∧
+    (lastN n out').length = min n legs.flatten.length :=
+  ParLifts.tail_lift_sound le hle n hs h
+
+/-- **filter_lift_sound**: a filter copied into the legs gives a sorted permutation of the filter
+    of any merge of the unfiltered legs. -/
+theorem filter_lift_sound (le : ρ → ρ → Bool) (hle : TotalPreorder le) (p : ρ → Bool) {legs : List (List ρ)}
+    {out out' : List ρ} (hs : ∀ l ∈ legs, l.Pairwise (fun x y => le x y = true))
+    (h' : KMerge le (legs.map (List.filter p)) out') (h : KMerge le legs out) :
+    out'.Perm (out.filter p) ∧ out'.Pairwise (fun x y => le x y = true) ∧
+      (out.filter p).Pairwise (fun x y => le x y = true) :=
+  ParLifts.filter_lift_sound le hle p hs h' h
+
+/-- two sorted permutations of each other agree position by position up to ties -/
+theorem sorted_perm_pointwise_equiv (le : ρ → ρ → Bool) (hle : TotalPreorder le) {a b : List ρ}
+    (hp : a.Perm b) (ha : a.Pairwise (fun x y => le x y = true)) (hb : b.Pairwise (fun x y => le x y = true)) :
+    ∀ i (hi : i < a.length), le a[i] (b[i]'(by rw [← hp.length_eq]; exact hi)) = true ∧
+                              le (b[i]'(by rw [← hp.length_eq]; exact hi)) a[i] = true :=
+  ParLifts.sorted_perm_pointwise_equiv le hle hp ha hb
 
 /-! ### partial aggregation in the legs -/
 
